@@ -458,6 +458,9 @@ arena_realloc(struct arena_scope *s, void *ptr, size_t old_size,
 	if (old_size == 0)
 		a->stats.realloc.zero++;
 
+	/* The fast path does not end up in arena_malloc(). */
+	arena_scope_validate(a, s, new_size);
+
 	/* Fast path while reallocating last allocated object. */
 	if (ptr != NULL && arena_realloc_fast(s, ptr, old_size, new_size)) {
 		a->stats.realloc.fast++;
